@@ -1,7 +1,8 @@
 (* C05 — every decoded value re-encodes at every protocol and decodes back to itself. *)
 From Coq Require Import List ZArith NArith Bool.
 From Coq.Strings Require Import Byte.
-From OgRek Require Import Base Value Reader Decoder DecoderFacts Encoder EncoderFacts Norm NormMaps TypingFacts RoundTrip RoundTripMaps.
+From Coq Require Import Permutation.
+From OgRek Require Import Base Value Reader Decoder DecoderFacts Encoder EncoderFacts Norm NormMaps TypingFacts RoundTrip RoundTripMaps KeyFacts ReflectFacts.
 
 (* STATUS.  C05_redecode_partial is the property for every result without heap objects (maps,
    Dicts) and PersistentLoad objects:  whatever bytes inp Decode succeeded on - from any decoder
@@ -26,14 +27,10 @@ Theorem C05_redecode_partial : forall cfg c st0 inp x st1 rest0 t st rest,
 Proof. exact redecode. Qed.
 Print Assumptions C05_redecode_partial.
 
-(* Results that hold maps / Dicts: what is proved is the second half of the chain.  Whatever value r
-   the encoder is handed - in particular the reflection of a decoded result, its maps iterated in
-   whatever order the Go runtime chooses - if it has a normal form (NormMaps.norm2), Encode succeeds
-   and Decode returns that normal form, from any decoder state (C03_round_trip_maps).  Not proved:
-   that the normal form of the reflection of a decoded result x is the content of x up to the order
-   of map entries (it needs: stored keys are pairwise unequal, so re-assigning them in any order
-   reproduces the same entries) - decided by the run: decode -> encode at 6 protocols -> decode on
-   the implementation, dumps with sorted entries compared. *)
+(* Results that hold maps / Dicts, second half of the chain.  Whatever value r the encoder is handed -
+   in particular the reflection of a decoded result, its maps iterated in whatever order the Go
+   runtime chooses - if it has a normal form (NormMaps.norm2), Encode succeeds and Decode returns
+   that normal form, from any decoder state (C03_round_trip_maps). *)
 Theorem C05_reencode_with_maps : forall c pd v cvl st rest,
   (0 <= e_proto c <= 5)%Z -> norm2 c pd TRef v = Some cvl -> heap_bound st ->
   snd (run_w (encode c v) None) = EOk /\
@@ -46,6 +43,66 @@ Proof.
   split; [exact A|]. exists x, st'. split; [exact D|exact C].
 Qed.
 Print Assumptions C05_reencode_with_maps.
+
+(* Results that hold maps / Dicts, the whole chain.  x is what Decode returned on ANY input, from
+   any decoder state satisfying the typing invariant (C16; it now includes: the keys every heap
+   object holds are pairwise unequal - KeyFacts / TypingFacts.obj_ok).  r is ANY reflection of x
+   (ReflectFacts.reflects): lists, tuples and calls element by element, every builtin map and Dict
+   with its entries in an arbitrary order - the order Go's map iteration happens to pick.  If
+   protocol c can carry r at all (norm2 defined: none of the three documented limitations, counted
+   payloads below 2^32, no *big.Int key in a builtin map), then Encode succeeds, Decode of the
+   output - by any decoder with the same two settings, from any state, followed by any bytes -
+   succeeds and leaves exactly the following bytes, and ONE content cvl describes both results:
+   the new value has it exactly (content), the first result has it up to the order of map entries
+   (contentp), which no Go program can observe.  Type and content are therefore identical. *)
+Theorem C05_redecode_with_maps : forall cfg c st0 inp x st1 rest0 r cvl st rest,
+  state_ok cfg st0 -> load_ok cfg ->
+  decode cfg st0 inp = ((Ok x, st1), rest0) ->
+  c_strict cfg = e_strict c -> (0 <= e_proto c <= 5)%Z ->
+  reflects (d_heap st1) x r ->
+  norm2 c (c_pydict cfg) TRef r = Some cvl ->
+  heap_bound st ->
+  snd (run_w (encode c r) None) = EOk /\
+  exists x' st',
+    decode (dcfg_of c (c_pydict cfg)) st (output (encode c r) ++ rest) = ((Ok x', st'), rest) /\
+    content (d_heap st') x' cvl /\
+    contentp (d_heap st1) x cvl.
+Proof.
+  intros cfg c st0 inp x st1 rest0 r cvl st rest H0 LOK D Hs Hp R Hn Hb.
+  destruct (decode_typed cfg LOK st0 inp (Ok x) st1 rest0 H0 D) as [H1 Hr].
+  destruct (C05_reencode_with_maps c (c_pydict cfg) r cvl st rest Hp Hn Hb) as [A [x' [st' [D' C']]]].
+  split; [exact A|]. exists x', st'. split; [exact D'|]. split; [exact C'|].
+  eapply (reflect_norm2 cfg c Hs (d_heap st1) (so_heap cfg st1 H1)); [exact R|apply Hr; reflexivity|exact Hn].
+Qed.
+Print Assumptions C05_redecode_with_maps.
+
+(* the heap invariant the theorem rests on, for every reachable decoder state: no object ever holds
+   two equal keys (Go == in a builtin map; Python == in a Dict, whose keys are all hashable) *)
+Theorem C05_heap_keys_distinct : forall cfg st inp r st' rest id o,
+  load_ok cfg -> state_ok cfg st -> decode cfg st inp = ((r, st'), rest) ->
+  heap_get (d_heap st') id = Some o -> obj_keys o.
+Proof.
+  intros cfg st inp r st' rest id o LOK H D G.
+  destruct (decode_typed cfg LOK st inp r st' rest H D) as [H1 _].
+  exact (proj2 (heap_get_ok cfg (d_heap st') id o (so_heap cfg st' H1) G)).
+Qed.
+Print Assumptions C05_heap_keys_distinct.
+
+(* hypotheses are satisfiable: {1: 2, 3: [4]} decoded, reflected with the entries in the other order *)
+Definition ex2_inp : bytes :=
+  (x7d :: x4b :: x01 :: x4b :: x02 :: x73 :: x4b :: x03 :: x5d :: x4b :: x04 :: x61 :: x73 :: x2e :: nil).
+Definition ex2_r : rval := RMap ((RInt 3, RList (RInt 4 :: nil)) :: (RInt 1, RInt 2) :: nil).
+Example C05_maps_nonvacuous :
+  exists x st1, decode (Build_dconfig false false None) init_state ex2_inp = ((Ok x, st1), nil) /\
+    reflects (d_heap st1) x ex2_r /\
+    exists cvl, norm2 (Build_econfig 2 false (fun _ => false) (fun _ => nil)) false TRef ex2_r = Some cvl.
+Proof.
+  eexists. eexists. split; [vm_compute; reflexivity|]. split.
+  - eapply rf_map; [vm_compute; reflexivity|apply perm_swap|].
+    constructor; [split; apply rf_leaf; reflexivity|].
+    constructor; [split; apply rf_leaf; reflexivity|constructor].
+  - eexists. vm_compute. reflexivity.
+Qed.
 
 Theorem C05_partial_totality :
   (forall cfg st inp, fst (fst (decode cfg st inp)) <> Panic /\ fst (fst (decode cfg st inp)) <> OutOfFuel)
